@@ -7,6 +7,7 @@ import (
 	"runtime"
 	"strings"
 	"sync"
+	"sync/atomic"
 	"time"
 
 	"github.com/ali-assar/NATS-Leader-Election/leader"
@@ -24,6 +25,7 @@ type Trace struct {
 	ids    map[string]int
 	views  map[string]int
 	nextID int
+	over   atomic.Bool // the scenario has ended (tear-down in progress)
 }
 
 func newTrace() *Trace {
@@ -151,25 +153,25 @@ type OpPlan struct {
 }
 
 type RefStore struct {
-	bareSeq  bool // a refused Create is reported as the bare "wrong last sequence" API error
-	mockErrs bool // conflicts and misses are reported in the mock store's words ("revision mismatch", "key not found")
-	mu      sync.Mutex
-	tr      *Trace
-	ttl     time.Duration
-	seq     uint64
-	data    map[string]*storeRec
-	tomb    map[string]*storeRec // delete markers: the subject's last sequence until the marker itself ages out
-	watches []*refWatch
-	opSeq   int
-	wSeq    int
-	planFn  func(inst int, op string, nth int) OpPlan
-	opCount map[int]int
-	cut     map[int]bool // partitioned instances: operations time out (client-side request time-out)
-	dead    map[int]bool // crashed instances: operations hang for ever
+	bareSeq   bool // a refused Create is reported as the bare "wrong last sequence" API error
+	mockErrs  bool // conflicts and misses are reported in the mock store's words ("revision mismatch", "key not found")
+	mu        sync.Mutex
+	tr        *Trace
+	ttl       time.Duration
+	seq       uint64
+	data      map[string]*storeRec
+	tomb      map[string]*storeRec // delete markers: the subject's last sequence until the marker itself ages out
+	watches   []*refWatch
+	opSeq     int
+	wSeq      int
+	planFn    func(inst int, op string, nth int) OpPlan
+	opCount   map[int]int
+	cut       map[int]bool // partitioned instances: operations time out (client-side request time-out)
+	dead      map[int]bool // crashed instances: operations hang for ever
 	opTimeout time.Duration
-	wplanFn func(inst int, nth int) (delay time.Duration, drop bool)
-	done    chan struct{} // closed at scenario end: releases hung operations
-	watchFail map[int]int // remaining Watch() failures per instance
+	wplanFn   func(inst int, nth int) (delay time.Duration, drop bool)
+	done      chan struct{}                     // closed at scenario end: releases hung operations
+	watchFail map[int]int                       // remaining Watch() failures per instance
 	trigger   func(inst, nth int, phase string) // scenario hook: an operation of inst reached a phase
 }
 
